@@ -714,3 +714,51 @@ async def _k_request(ctx: Ctx, a: Actor, st: dict) -> Any:
 async def _k_send(ctx: Ctx, a: Actor, st: dict) -> Any:
     conn = ctx.conn_objs[st.get("k", "k0")]
     conn.send_messages(tuple(build_msg(ctx.L.pb, n, f) for n, f in st["msgs"]))
+
+
+# ----------------------------------------------------------------------------------------
+# raw message subscribers (C12)
+# ----------------------------------------------------------------------------------------
+
+
+def _add_raw_cb(ctx: Ctx, conn: Any, sid: str, types: list, behaviors: list) -> None:
+    pb = ctx.L.pb
+    w = ctx.world
+    state = {"calls": 0}
+
+    def cb(msg: Any) -> None:
+        state["calls"] += 1
+        w.rec("cb_raw", sid=sid, name=type(msg).__name__, data=msg.SerializeToString(), n=state["calls"])
+        for b in behaviors:
+            if b.get("on_call") != state["calls"]:
+                continue
+            if b["do"] == "remove_self":
+                _remove_raw_cb(ctx, sid)
+            elif b["do"] == "remove":
+                _remove_raw_cb(ctx, b["sid"])
+            elif b["do"] == "add":
+                _add_raw_cb(ctx, conn, b["new"]["sid"], b["new"]["types"], b["new"].get("behaviors", []))
+            elif b["do"] == "raise":
+                raise ValueError("subscriber failure " + sid)
+
+    w.rec("sub_add", sid=sid, types=list(types))
+    remove = conn.add_message_callback(cb, tuple(getattr(pb, t) for t in types))
+    ctx.subs[sid] = remove
+
+
+def _remove_raw_cb(ctx: Ctx, sid: str) -> None:
+    rm = ctx.subs.pop(sid, None)
+    if rm is not None:
+        ctx.world.rec("sub_remove", sid=sid)
+        rm()
+
+
+@step("add_cb")
+async def _s_add_cb(ctx: Ctx, a: Actor, st: dict) -> Any:
+    conn = _cli(ctx, st)._get_connection()
+    _add_raw_cb(ctx, conn, st["sid"], st["types"], st.get("behaviors", []))
+
+
+@step("remove_cb")
+async def _s_remove_cb(ctx: Ctx, a: Actor, st: dict) -> Any:
+    _remove_raw_cb(ctx, st["sid"])
